@@ -1051,7 +1051,9 @@ func (m *Model) End(runErr error) []V {
 			}
 			if e.e.Kind == DeferCmd {
 				notRun = append(notRun, "D "+e.cid+" "+i.P)
-			} else if e.callee.phase == phIdle && m.guardFails(e.callee) == "" {
+			} else if e.callee.phase == phIdle && m.guardFails(e.callee) == "" && m.emitsUnconditionally(e.callee, 0) {
+				// (a deferred call whose callee first has to wait for deps may have run and ended silently,
+				// e.g. because one of those deps had already failed: only a callee that certainly emits counts)
 				notRun = append(notRun, "call "+e.cid+" "+i.P)
 			}
 		}
@@ -1062,6 +1064,32 @@ func (m *Model) End(runErr error) []V {
 			What: fmt.Sprintf("registered defers never ran: %v", notRun)})
 	}
 	return vs
+}
+
+// emitsUnconditionally reports whether an instance that has not started yet certainly produces an event
+// as soon as it runs: no guard, no deps, and a first entry that is a command (or a call of such a task).
+func (m *Model) emitsUnconditionally(i *Inst, depth int) bool {
+	if depth > 10 || i.phase != phIdle || m.guardFails(i) != "" || len(i.T.Guards) > 0 {
+		return false
+	}
+	m.expand(i)
+	if len(i.deps) > 0 {
+		return false
+	}
+	for _, e := range i.ents {
+		switch e.e.Kind {
+		case Probe:
+			return true
+		case Call:
+			return e.callee.phase == phIdle && !e.callee.Shared && m.emitsUnconditionally(e.callee, depth+1)
+		}
+	}
+	for _, e := range i.ents {
+		if e.e.Kind == DeferCmd {
+			return true
+		}
+	}
+	return false
 }
 
 func (m *Model) missing() []string {
